@@ -28,6 +28,18 @@ REG = {
         'checked against the update law'),
 }
 
+REG['C11'] = dict(
+    oracle='c11', profiles=[('grid', 1, {'mixed_time_units': True})],
+    quick=6000, thorough=300000,
+    vacuity=['segments', 'continued', 'F_UNITSWITCH', 'stopped_early',
+             'full_length'],
+    rule='decimal steps dt = m*10^-e (m 1..999, e 0..4), n 2..120 (thorough '
+    '400), T as dt*n or as the decimal literal, four time units, fresh and '
+    'continued runs (same or another unit/dt), optional stop; distinct = '
+    '(schedule ops, fired faults, (unit, e, T mode) per run); non-trivial = '
+    'at least one run segment judged against the exact decimal grid',
+    thorough_cfg={'grid_n_max': 400})
+
 NOT_APPLICABLE = [
     {'property_id': 'C05',
      'reason': 'stateless function of (value, from-unit, to-unit): no schedule, clock, fault, I/O or history for a simulator to act on; its quantifier is decided by exhaustive enumeration of unit pairs, a different technique (DESIGN.md section 6)'},
